@@ -32,9 +32,10 @@ Lemma step_spec (step : wstate -> wevent -> wstate) :
     | WChange g (Some ns) => if bytes_eqb g f then Some ns else good (wget s f)
     | WChange g None => good (wget s f)
     | WRemove g => if bytes_eqb g f then None else good (wget s f)
+    | WTouch => good (wget s f)
     end.
 Proof.
-  intros Hs s e f. destruct e as [g [ns|]|g].
+  intros Hs s e f. destruct e as [g [ns|]|g|].
   - assert (step s (WChange g (Some ns)) = wset s g (Some ns)) as -> by (destruct Hs; subst; reflexivity).
     destruct (bytes_eqb g f) eqn:E; [apply bytes_eqb_eq in E; subst; now rewrite wget_wset_same|now rewrite wget_wset_other].
   - destruct Hs; subst; cbn; [|reflexivity].
@@ -42,6 +43,7 @@ Proof.
     destruct (bytes_eqb g f) eqn:E; [apply bytes_eqb_eq in E; subst; now rewrite wget_wset_same, Eg|now rewrite wget_wset_other].
   - assert (step s (WRemove g) = wdel s g) as -> by (destruct Hs; subst; reflexivity).
     destruct (bytes_eqb g f) eqn:E; [apply bytes_eqb_eq in E; subst; now rewrite wget_wdel_same|now rewrite wget_wdel_other].
+  - destruct Hs; subst; reflexivity.
 Qed.
 
 (* C19: after ANY event history, for every file, the visible version is exactly the last valid version of that
@@ -50,7 +52,7 @@ Theorem watcher_refines step : (step = legacy_step \/ step = opl_step) ->
   forall evs s f, good (wget (fold_left step evs s) f) = last_good evs f (good (wget s f)).
 Proof.
   intros Hs. induction evs as [|e evs IH]; intros s f; cbn [fold_left last_good]; [reflexivity|].
-  rewrite IH, (step_spec step Hs). destruct e as [g [ns|]|g]; reflexivity.
+  rewrite IH, (step_spec step Hs). destruct e as [g [ns|]|g|]; reflexivity.
 Qed.
 Corollary keep_last_good step : (step = legacy_step \/ step = opl_step) ->
   forall s f g, good (wget (step s (WChange g None)) f) = good (wget s f).
@@ -59,8 +61,11 @@ Corollary valid_takes_effect step : (step = legacy_step \/ step = opl_step) ->
   forall s f ns, good (wget (step s (WChange f (Some ns))) f) = Some ns.
 Proof. intros Hs s f ns. rewrite (step_spec step Hs). now rewrite bytes_eqb_refl. Qed.
 Corollary other_files_untouched step : (step = legacy_step \/ step = opl_step) ->
-  forall s e f, (match e with WChange g _ | WRemove g => bytes_eqb g f end) = false -> good (wget (step s e) f) = good (wget s f).
-Proof. intros Hs s e f H. rewrite (step_spec step Hs). destruct e as [g [ns|]|g]; try rewrite H; reflexivity. Qed.
+  forall s e f, (match e with WChange g _ | WRemove g => bytes_eqb g f | WTouch => false end) = false -> good (wget (step s e) f) = good (wget s f).
+Proof. intros Hs s e f H. rewrite (step_spec step Hs). destruct e as [g [ns|]|g|]; try rewrite H; reflexivity. Qed.
+(* a change of the main configuration that does not concern the namespaces changes nothing (fix D21) *)
+Corollary config_touch_changes_nothing step : (step = legacy_step \/ step = opl_step) -> forall s, step s WTouch = s.
+Proof. intros [->| ->] s; reflexivity. Qed.
 
 (* the visible set is the union of the per-file versions *)
 Lemma visible_spec s n : In n (visible s) <-> exists f ns, In (f, Some ns) s /\ In n ns.
@@ -89,7 +94,7 @@ Proof. intros H. rewrite wset_keys. destruct (existsb _ (map fst s)) eqn:E; [exa
   - intros Hin. apply in_app_or in Hin as [Hin|[->|[]]]; [tauto|]. apply Hn. now left.
   - apply IH; [assumption|]. intros Hin. apply Hn. now right. Qed.
 Lemma nodup_step step : (step = legacy_step \/ step = opl_step) -> forall s e, NoDup (map fst s) -> NoDup (map fst (step s e)).
-Proof. intros [->| ->] s e H; destruct e as [g [ns|]|g]; cbn.
+Proof. intros [->| ->] s e H; destruct e as [g [ns|]|g|]; cbn.
   all: try (apply nodup_wset; exact H). all: try (rewrite wdel_keys; apply nodup_filter; exact H). all: try exact H.
   destruct (wget s g); [exact H|apply nodup_wset; exact H]. Qed.
 
